@@ -75,6 +75,20 @@ pub proof fn lemma_dedup_append_step<T>(a: Seq<T>, b: Seq<T>, i: int)
     requires 0 <= i < b.len()
     ensures dedup_append(a, b.take(i + 1)) == (if dedup_append(a, b.take(i)).contains(b[i]) { dedup_append(a, b.take(i)) } else { dedup_append(a, b.take(i)).push(b[i]) })
 { assert(b.take(i + 1).drop_last() =~= b.take(i)); }
+pub proof fn lemma_dedup_append_set<T>(a: Seq<T>, b: Seq<T>)
+    requires a.no_duplicates()
+    ensures dedup_append(a, b).no_duplicates(), dedup_append(a, b).to_set() =~= a.to_set() + b.to_set()
+    decreases b.len()
+{
+    if b.len() > 0 {
+        let p = dedup_append(a, b.drop_last());
+        lemma_dedup_append_set(a, b.drop_last());
+        lemma_push_set(p, b.last());
+        if !p.contains(b.last()) { lemma_push_nodup(p, b.last()); }
+        lemma_push_set(b.drop_last(), b.last());
+        assert(b.drop_last().push(b.last()) =~= b);
+    }
+}
 impl @COLL@ {
     /// C16 representation invariant: the vector holds no element twice and the index set is exactly its element set
     pub open spec fn wf(&self) -> bool {
@@ -144,16 +158,18 @@ def unit(u):
            head=step % ("Rc::new(%s)" % arg))
     if "extend" in fns:
         fn("extend", requires=["old(self).wf()", "key_model_ok()"],
-           ensures=["final(self).wf()", "final(self).%s@ == dedup_append(old(self).%s@, other.%s@)" % (vec, vec, vec)],
+           ensures=["final(self).wf()", "final(self).%s@ == dedup_append(old(self).%s@, other.%s@)" % (vec, vec, vec),
+                    "final(self).%s@.to_set() == old(self).%s@.to_set() + other.%s@.to_set()" % (vec, vec, vec)],
            loops=[dict(index=0, invariant=["self.wf()", "key_model_ok()", "%s == dedup_append(old(self).%s@, other.%s@.take(it.index@ as int))" % (V, vec, vec)])],
            hints=[dict(before_stmt="self.add(", proof="lemma_dedup_append_step(old(self).%s@, other.%s@, it.index@ as int);" % (vec, vec))],
-           tail="assert(other.%s@.take(other.%s@.len() as int) =~= other.%s@);" % (vec, vec, vec))
+           tail="assert(other.%s@.take(other.%s@.len() as int) =~= other.%s@); lemma_dedup_append_set(old(self).%s@, other.%s@);" % (vec, vec, vec, vec, vec))
     if "extend_move" in fns:
         fn("extend_move", requires=["old(self).wf()", "key_model_ok()"],
-           ensures=["final(self).wf()", "final(self).%s@ == dedup_append(old(self).%s@, other.%s@)" % (vec, vec, vec)],
+           ensures=["final(self).wf()", "final(self).%s@ == dedup_append(old(self).%s@, other.%s@)" % (vec, vec, vec),
+                    "final(self).%s@.to_set() == old(self).%s@.to_set() + other.%s@.to_set()" % (vec, vec, vec)],
            loops=[dict(index=0, invariant=["self.wf()", "key_model_ok()", "%s == dedup_append(old(self).%s@, other.%s@.take(it.index@ as int))" % (V, vec, vec)])],
            hints=[dict(before_stmt="if self.dedup.insert(", proof="lemma_dedup_append_step(old(self).%s@, other.%s@, it.index@ as int); lemma_step(%s, self.dedup@, keyhash);" % (vec, vec, V))],
-           tail="assert(other.%s@.take(other.%s@.len() as int) =~= other.%s@);" % (vec, vec, vec))
+           tail="assert(other.%s@.take(other.%s@.len() as int) =~= other.%s@); lemma_dedup_append_set(old(self).%s@, other.%s@);" % (vec, vec, vec, vec, vec))
     if "from_vec" in fns:
         src = open(os.path.join(os.environ.get("VERIF_REPO", "/repo"), file)).read()
         m = re.search(r"fn from_vec\((\w+): Vec<%s>\) -> Self \{(.*?)\n    \}" % elem, src, re.S)
